@@ -1609,6 +1609,17 @@ void t_variant()
         [one](auto &&x) requires std::is_same_v<std::remove_cvref_t<decltype(x)>, F> { return one(std::forward<decltype(x)>(x)); },
         [one](auto &&x) requires std::is_same_v<std::remove_cvref_t<decltype(x)>, G> { return one(std::forward<decltype(x)>(x)); });
   });
+  nary<1>("variant::match" C05_BYVAL, 3, mk1,
+          [](auto c0, auto &a) {
+            auto one = [](auto x) {
+              bins b;
+              into_bins(b, std::move(x));
+              return b;
+            };
+            return fcppt::variant::match(FW(c0, a), [one](E x) { return one(std::move(x)); }, [one](F x) { return one(std::move(x)); },
+                                         [one](G x) { return one(std::move(x)); });
+          },
+          keep_all{}, only_rvalues{});
   nary<1>("variant::apply/1", 3, mk1, [](auto c0, auto &a) {
     return fcppt::variant::apply(
         [](auto &&x) {
@@ -1691,11 +1702,17 @@ void t_tuple()
   nary<1>("algorithm::map<tuple->tuple>", 1, mk3, [](auto c0, auto &a) {
     return fcppt::algorithm::map<tEFG>(FW(c0, a), conv_same{});
   });
+  nary<1>("algorithm::map<tuple->tuple>" C05_BYVAL, 1, mk3, [](auto c0, auto &a) { return fcppt::algorithm::map<tEFG>(FW(c0, a), byval{}); },
+          keep_all{}, only_rvalues{});
+  nary<1>("tuple::map/1" C05_BYVAL, 1, [](case_t &cx, unsigned) { return std::make_tuple(tE{mk<E>(cx)}); },
+          [](auto c0, auto &a) { return fcppt::tuple::map(FW(c0, a), byval{}); }, keep_all{}, only_rvalues{});
   nary<1>("algorithm::loop<tuple>", 1, mk3, [](auto c0, auto &a) {
     bins b;
     fcppt::algorithm::loop(FW(c0, a), [&b](auto &&x) { into_bins(b, std::forward<decltype(x)>(x)); });
     return b;
   });
+  // (no by-value variant for algorithm::loop: it hands the elements of an rvalue tuple to the function as lvalues - the
+  // library itself copies nothing, and loop is not documented to forward)
   nary<1>("tuple::invoke", 1, mk3, [](auto c0, auto &a) {
     return fcppt::tuple::invoke(
         [](auto &&x, auto &&y, auto &&z) {
